@@ -231,6 +231,7 @@ def run_shard(shard):
             check_case(st, doc, text, shp, segs, ptxt)
         if di % CLIMB_STRIDE == 0:
             climb_create_family(st, doc, text, shp)
+            consumer_edit_family(st, doc, text, shp)
         if di == lo:
             st.sample({"doc": text, "path": PATHS[(di * 7) % len(PATHS)][1]})
     return st
@@ -267,6 +268,83 @@ def climb_create_family(st, doc, text, shp):
                             "results or a YAML Path error", out.detail)
                 elif out.kind == "nodes":
                     st.sig(shp, "climb", first, up, tail)
+
+
+EDIT_PATHS = ["*", "[.^a]", "[.!=zz]", "[.=~/./]", "**", "[a:b]", "[0:2]",
+              "[a!=zz]", "a.*", "a[.!=zz]", "a[0:2]", "*.*", "[has_child(a)]",
+              "[!has_child(zz)]", "a[max()]", "a[!max()]"]
+EDITS = ("drop-last", "drop-first", "drop-others", "clear")
+
+
+def _enumerated(doc, ptxt):
+    """The container the first segment(s) of the path enumerate."""
+    if ptxt.startswith("a") and corpus.is_map(doc) and "a" in doc:
+        return doc["a"]
+    return doc
+
+
+def _apply_edit(cont, edit, keep):
+    if corpus.is_map(cont):
+        keys = [k for k in cont.keys()]
+        victims = {"drop-last": keys[-1:], "drop-first": keys[:1],
+                   "drop-others": [k for k in keys if cont[k] is not keep],
+                   "clear": keys}[edit]
+        for k in victims:
+            if k in cont:
+                del cont[k]
+    elif corpus.is_list(cont):
+        if edit == "drop-last" and cont:
+            del cont[-1]
+        elif edit == "drop-first" and cont:
+            del cont[0]
+        elif edit == "drop-others":
+            cont[:] = [e for e in cont if e is keep]
+        elif edit == "clear":
+            del cont[:]
+
+
+def consumer_edit_family(st, doc0, text, shp):
+    """get_nodes() is a generator: its consumer may edit the document between
+    two results (the tools do - delete what was found, rename it).  Whatever
+    it removes from the container under enumeration after the FIRST result,
+    the rest of the query still ends in results or a YAML Path error."""
+    for ptxt in EDIT_PATHS:
+        for edit in EDITS:
+            for must in (True, False):
+                doc = copy.deepcopy(doc0)
+                st.evaluations += 1
+                st.transitions += 2
+                st.validated += 1
+                outcome = "nodes"
+                try:
+                    proc = qrun.Processor(corpus.LOG, doc)
+                    count = 0
+                    for nc in proc.get_nodes(ptxt, mustexist=must,
+                                             default_value="z"):
+                        count += 1
+                        if count == 1:
+                            keep = nc.node if not isinstance(
+                                nc, list) else None
+                            _apply_edit(_enumerated(doc, ptxt), edit, keep)
+                        if count > 200:
+                            outcome = "crash:Endless"
+                            break
+                except qrun.YAMLPathException:
+                    outcome = "ype"
+                except RecursionError:
+                    outcome = "crash:RecursionError"
+                except Exception as ex:   # pylint: disable=broad-except
+                    outcome = "crash:%s@%s" % (type(ex).__name__,
+                                               qrun.where(ex))
+                st.states += 1
+                st.outcomes["edited:" + outcome.split(":")[0]] += 1
+                if outcome.startswith("crash"):
+                    st.fail("consumer-edit|%s|%s" % (edit, outcome[6:]),
+                            {"doc": text, "path": ptxt, "mode": "edit",
+                             "edit": edit, "mustexist": must},
+                            "results or a YAML Path error", outcome)
+                else:
+                    st.sig(shp, "edit", ptxt, edit, outcome)
 
 
 def scalars_only(doc, nav, operands):
@@ -319,6 +397,15 @@ def check_case(st, doc, text, shp, segs, ptxt):
 def replay(case):
     st = core.Stats(None)
     doc = corpus.load(case["doc"])
+    if case.get("mode") == "edit":
+        consumer_edit_family(st, doc, case["doc"], "?")
+        for lst in st.fails.values():
+            for f in lst:
+                if f["case"]["path"] == case["path"] and \
+                        f["case"]["edit"] == case["edit"] and \
+                        f["case"]["mustexist"] == case["mustexist"]:
+                    return f
+        return None
     if case.get("mode") == "optional":
         out = qrun.query(doc, case["path"], mustexist=False, default="z",
                          limit=200)
